@@ -19,7 +19,8 @@ void TypeManager::register_typedef(const std::string &name,
 
 std::string TypeManager::resolve_typedef(const std::string &type_name) {
     auto it = interpreter_->typedef_map.find(type_name);
-    if (it != interpreter_->typedef_map.end()) {
+    // (`typedef S S;` maps a name to itself: that is the end of the chain)
+    if (it != interpreter_->typedef_map.end() && it->second != type_name) {
         // さらに別のtypedefの可能性があるので再帰的に解決
         return resolve_typedef(it->second);
     }
